@@ -29,6 +29,9 @@ type built struct {
 	outFile string
 	files   []string
 	close   func()
+	// up (optional) makes the target reachable: it is called once the pool config is decoded (a target named by a host
+	// name that could not be resolved - reached - when the gun section was read)
+	up func() error
 	// finish judges what the target saw once the run is over; returns the number of requests served
 	finish func() int
 	// expectTags (optional): sample tag -> number of samples the run must have left
@@ -38,6 +41,8 @@ type built struct {
 	strict bool
 	// discarded: ammo the instances acquired but did not shoot because discard_overflow dropped the shot (set before finish)
 	discarded int
+	// conns: connections the http target accepted (set by finish)
+	conns int64
 }
 
 func (b *built) discardedNote() string {
@@ -283,11 +288,13 @@ func buildHTTP(c Case, b *built, viol *violations) (gun, ammo map[string]any, er
 	}
 	name := writeFile(b, "c11ammo", ".ammo", data)
 
-	tg := target.NewHTTP(false)
-	b.close = tg.Close
+	tg, terr := newHTTPTg(c, b)
+	if terr != nil {
+		return nil, nil, terr
+	}
 	var mu sync.Mutex
 	perEntry := make([]int, p.Entries)
-	tg.Reset(func(seq int, r *target.Rec) target.Resp {
+	tg.reset(func(seq int, r *target.Rec) target.Resp {
 		think(c)
 		u, perr := url.ParseRequestURI(r.RequestURI)
 		if perr != nil {
@@ -332,7 +339,8 @@ func buildHTTP(c Case, b *built, viol *violations) (gun, ammo map[string]any, er
 		return target.Resp{Status: 200, Body: []byte("ok")}
 	})
 	b.finish = func() int {
-		recs := tg.Records()
+		recs := tg.records()
+		b.conns = tg.conns()
 		if shots := b.fired(c); len(recs) > shots || (b.strict && len(recs) != shots) {
 			viol.add("target: %d requests arrived, the provider was limited to %d ammo%s", len(recs), c.Shots, b.discardedNote())
 		}
@@ -359,8 +367,7 @@ func buildHTTP(c Case, b *built, viol *violations) (gun, ammo map[string]any, er
 		}
 		return out
 	}
-	// generous dial timeout: with all shards busy a loopback SYN may need a retransmit
-	gun = map[string]any{"type": "http", "target": tg.Addr(), "dial": map[string]any{"timeout": "20s"}}
+	gun = tg.gunConf("http")
 	ammo = map[string]any{"type": ag.ProviderType(p.Format), "file": name, "limit": c.Shots, "preload": p.Preload,
 		"headers": []any{"[X-Common: cfg]"}}
 	switch p.DateHeader {
@@ -943,10 +950,12 @@ func buildHTTPScen(c Case, b *built, viol *violations) (gun, ammo map[string]any
 	}
 	b.text = string(data)
 	name := writeFile(b, "c11scen", ".yaml", data)
-	tg := target.NewHTTP(false)
-	b.close = tg.Close
+	tg, terr := newHTTPTg(c, b)
+	if terr != nil {
+		return nil, nil, terr
+	}
 	j := newJudge(c, viol)
-	tg.Reset(func(seq int, r *target.Rec) target.Resp {
+	tg.reset(func(seq int, r *target.Rec) target.Resp {
 		think(c)
 		u, perr := url.ParseRequestURI(r.RequestURI)
 		if perr != nil {
@@ -1066,7 +1075,8 @@ func buildHTTPScen(c Case, b *built, viol *violations) (gun, ammo map[string]any
 		}
 	})
 	b.finish = func() int {
-		recs := tg.Records()
+		recs := tg.records()
+		b.conns = tg.conns()
 		j.mu.Lock()
 		defer j.mu.Unlock()
 		shots := b.fired(c)
@@ -1094,7 +1104,7 @@ func buildHTTPScen(c Case, b *built, viol *violations) (gun, ammo map[string]any
 		}
 		return len(recs)
 	}
-	gun = map[string]any{"type": "http/scenario", "target": tg.Addr(), "dial": map[string]any{"timeout": "20s"}}
+	gun = tg.gunConf("http/scenario")
 	ammo = map[string]any{"type": "http/scenario", "file": name, "limit": c.Shots}
 	return gun, ammo, nil
 }
